@@ -1,8 +1,7 @@
 #!/usr/bin/env python3
 """Manual experiment (NOT part of bin/check): random search on the Lean model driver for violations of the FULL clauses
-of C15, on the model of the pinned tree (fix=0, must find the known refutations) and on the model of the code with the
-candidate repairs of notes/C15.md (fix=1).
-usage: repaired_model_search.py <fix 0|1> <cases> [seed]
+of C15, on the model of the pinned tree (old=1: semantics before the fixes 358626700/26e2e6b00, must find the three defects) and on the model of the current tree (old=0).
+usage: repaired_model_search.py <old 0|1> <cases> [seed]
 Checks, on the model's own observations:
   clause 1: a consensus start (start/decide -> ok) for slot s while a height >= s was started / learned decided since the
             last restart or was the stored highest at that restart;
@@ -10,13 +9,13 @@ Checks, on the model's own observations:
   clause 3: the highest record changes to a lower height, disappears, or changes certificate at the same height without
             more signers (same root only)."""
 import random, subprocess, sys, re
-fix, cases = sys.argv[1], int(sys.argv[2])
+old, cases = sys.argv[1], int(sys.argv[2])
 rnd = random.Random(int(sys.argv[3]) if len(sys.argv) > 3 else 1)
 Q = [[1,2,3],[1,2,4],[1,3,4],[2,3,4],[1,2,3,4]]
 lines = []
 for _ in range(cases):
     full = rnd.randint(0, 1)
-    lines.append(f"reset full={full} q=3 fix={fix}")
+    lines.append(f"reset full={full} q=3 old={old}")
     cur = 0
     for _ in range(rnd.randint(6, 30)):
         near = lambda: max(0, min(12, cur - 3 + rnd.randint(0, 6))) if rnd.random() > .15 else rnd.randint(0, 1)
@@ -63,5 +62,5 @@ for op, obs in zip(lines, out):
         elif cur_hi[0] < prev[0]: v("clause3:height-decreased")
         elif cur_hi[0] == prev[0] and cur_hi[4] != prev[4] and cur_hi[2] == prev[2] and cur_hi[3] <= prev[3]: v("clause3:not-more-signers")
     prev, Hprev = cur_hi, H
-print(f"fix={fix}: {cases} cases, {len(lines)} ops; violations of the full clauses: {sorted(viol) or 'none'}")
+print(f"old={old}: {cases} cases, {len(lines)} ops; violations of the full clauses: {sorted(viol) or 'none'}")
 for k, c in viol.items(): print("  ", k, "|", " ; ".join(c[-8:]))
